@@ -70,7 +70,7 @@ def run(pid, tier, args):
         v.add_tlc(res)
         edges = ["|".join(f) for f in vlib.parse_lines(res.lines, "ADV")]
         araw = os.path.join(wd, "alpha.json")
-        gen_lex.write(araw, list("anexm"), [])
+        gen_lex.write(araw, list("anexmu"), [])
         ef = os.path.join(wd, "adv.txt")
         open(ef, "w").write("\n".join(edges) + "\n")
         out = vlib.vh(vhbin, ["advance-replay", araw, ef])
@@ -83,7 +83,7 @@ def run(pid, tier, args):
         v.sample({"advance_step": edges[len(edges) // 3], "format": "input|from char|to char|position before|position after"})
         # (b) token streams of real lexers
         cases = gen_lex.family(vlib.seed(), 10 if tier == "quick" else 60)
-        alpha_s = list("abnes") if tier == "quick" else list("abclnesx")
+        alpha_s = list("abnesu") if tier == "quick" else list("abclnesxu")
         rawpath = os.path.join(wd, "raw.json")
         gen_lex.write(rawpath, alpha_s, cases)
         tf = os.path.join(wd, "stateful.ndjson")
@@ -136,7 +136,7 @@ def run(pid, tier, args):
             if rej is None:
                 raise Infra("binding self-test failed: corrupted token trace accepted")
             v.notes["binding_selftest"] = "column of event %d corrupted: rejected at line %s" % (k + 1, rej)
-        v.notes["family"] = "Advance: all inputs <= %d over {a, newline, e-acute(2 bytes), invalid byte, CR} x all span splittings; streams: %d successful lexes (stateful+simple maps x all inputs <= 4 over %s; text/scanner default and comment-preserving x all inputs over %s)" % (
+        v.notes["family"] = "Advance: all inputs <= %d over {a, newline, e-acute(2 bytes), invalid byte 0xFF, stray continuation byte 0xA9, CR} x all span splittings; streams: %d successful lexes (stateful+simple maps x all inputs <= 4 over %s; text/scanner default and comment-preserving x all inputs over %s)" % (
             4 if tier == "quick" else 6, n1 + n2, "".join(alpha_s), "a e-acute 1 \" space newline CR tab .")
         v.cov["exhaustive"] = True
         v.assumptions += ["only successful lexes are judged", "generated lexers: curated supported-class definitions compiled from the real generator output"]
